@@ -333,6 +333,8 @@ _RAO = "Panacea.Refine.AolOrder"
 R_AOLO = [f"{_RAG}.initGenesis_order_independent", "Panacea.C09.importTable_perm", "Panacea.C09.aolImport_perm", "Panacea.Map.ext_sorted", "Panacea.Map.foldl_set_perm"]
 _RAR = "Panacea.Refine.AolReach"
 R_AOLR = [f"{_RAE}.reachable_genesis_roundtrip", "Panacea.Aol.keysInv_step", "Panacea.Aol.keysInv_run", "Panacea.Aol.be64_mod"]
+_RDR = "Panacea.Refine.DidReach"
+R_DIDR = [f"{_RK}.dStep_wfd", f"{_RK}.dRun_wfd", f"{_RK}.reachable_genesis_roundtrip"]
 _RDG = "Panacea.Refine.DidGenesis"
 R_DIDG = [f"{_RK}.initGenesis_run", f"{_RK}.initGenesis_abs", f"{_RK}.initGenesis_empty", f"{_RK}.listDIDs_run",
           f"{_RK}.exportGenesis_run", f"{_RK}.genesis_roundtrip", f"{_RK}.initGenesis_order_independent"]
@@ -349,10 +351,10 @@ REFINE = {
     "C11": ([_RD, _RK], R_DIDV[-4:] + R_DIDK[3:5]),
     "C03": ([_RD, _RK, _RDG], R_DIDV[3:5] + R_DIDV[6:7] + R_DIDK + R_DIDG[-2:-1]),
     "C07": ([_RB], R_BURN),
-    "C08": ([_RP, _RPQ, _RPG, _RDG, _RCS, _RAG, _RAE, _RAR], R_PNFTG + [f"{_RP}.getAllDenoms_run"] + R_DIDG + R_CKS[-4:] + R_AOLG + R_AOLE + R_AOLR),
+    "C08": ([_RP, _RPQ, _RPG, _RDG, _RCS, _RAG, _RAE, _RAR, _RDR], R_PNFTG + [f"{_RP}.getAllDenoms_run"] + R_DIDG + R_CKS[-4:] + R_AOLG + R_AOLE + R_AOLR + R_DIDR),
     "C09": ([_RDG, _RAG, _RAO], R_DIDG[:3] + R_DIDG[-1:] + R_AOLG[4:5] + R_AOLG[7:9] + R_AOLO),
     "C04": ([_RK, _RDG], R_DIDK[2:] + R_DIDG[-2:-1]),
-    "C05": ([_RK, _RDG], R_DIDK[3:] + R_DIDG[-2:-1]),
+    "C05": ([_RK, _RDG, _RDR], R_DIDK[3:] + R_DIDG[-2:-1] + R_DIDR),
 }
 REFINE_TRUSTED = [
     "translator /verif/extract/code.go (Go → Lean `do`-blocks, statement by statement; anything it does not understand becomes `Go.unsupported`, which no refinement proof survives) and the meaning of its primitives lean/Panacea/Go/{Prelude,Lib}.lean (slices as lists with bounds checks that panic, `int` as unbounded Int, uint64 wrap-around, pointers as Option with panicking dereference, KV store as a sorted association list, bech32, the signature scheme and the protobuf codec as parameters — the codec with the two laws of LawfulProto and, for x/did, three facts about the encoding of documents (a length-prefixed value is never empty; the zero document encodes to the empty string; DIDDocument{Id: d} encodes to the bytes the model writes out), repeated message fields without nil elements (what protobuf decoding produces), decoded addresses never empty); for x/pnft the SDK's x/nft keeper is the hand-written lean/Panacea/Go/Nft.lean (five key spaces, SaveClass/UpdateClass/Mint/Burn/Transfer as in v0.47.12), `AccAddress(nil).String() = \"\"` is the hypothesis EncNil and the handler's block time is the model's `now`",
